@@ -83,7 +83,12 @@ func (watcher *RequestWatcher) StopAll() {
 	defer watcher.requestsMapMutex.RUnlock()
 
 	for _, request := range watcher.requests {
-		request.SetProcessedTimeout()
+		// Only a request that is still waiting may be signalled: one that was
+		// already served or timed out (and is only awaiting its asynchronous
+		// removal from the watch list) must not be signalled a second time.
+		if request.StartProcessing() {
+			request.SetProcessedTimeout()
+		}
 	}
 }
 
